@@ -17,6 +17,7 @@ in a comment, a `_partial` theorem whose extra hypothesis is the class of the fi
 -/
 import Restful.Lemmas.Entity
 import Restful.Lemmas.EntityToy
+import Restful.Lemmas.StateShape
 namespace Restful
 namespace Props
 open Entity Str Spec.C16
@@ -436,6 +437,13 @@ example :
       Spec.c16Holds Cfg.asIs [{ base with alone := .err }] = false ∧
       Spec.c16Holds Cfg.asIs [{ base with events := [.acquire, .release, .use] }] = false := by
   decide
+
+/-! The frame condition (Lemmas/StateShape.lean): the code has exactly the state this property's model
+    accounts for — no further package-level variable, struct type or field; constants as modelled. -/
+-- also: Restful.StateShape.globals_shape
+-- also: Restful.StateShape.consts_shape
+-- also: Restful.StateShape.entity_shape
+-- also: Restful.StateShape.compress_shape
 
 end Props
 end Restful
